@@ -18,6 +18,7 @@ import random
 
 from hsverif.c14_harness import build_sim, gen_burst_clients, gen_client_ops, gen_keys, gen_lsm_cfg, gen_think
 from hsverif.c14_oracle import before
+from hsverif.c15_epochs import gen_epochs, run_epochs, shrink_epochs
 from hsverif.core import Family, Result, ddmin
 from hsverif.probe import EngineProbe
 
@@ -35,7 +36,12 @@ RULE = (
     "pairs are in observed.crash_points_checked. Non-trivial crash point: a write operation was still open at the "
     "crash for longer than the log + memtable path takes (so it was inside its flush or compaction), or the log "
     "held entries beyond synced_up_to; a workload is non-trivial if it has such a crash point "
-    "(observed.nontrivial_crash_points counts the pairs). Distinct by hash of (workload, crash points)."
+    "(observed.nontrivial_crash_points counts the pairs). Distinct by hash of (workload, crash points). "
+    "Family epochs: 2-4 epochs over the SAME tree and log, each epoch = optional put_sync/get_sync preamble with no "
+    "simulation running + a fresh Simulation (time continues) with 1-4 concurrent clients (put/delete/get, in a third "
+    "of the cases also put_sync/get_sync), bursts, and a client retrying the tail of a previous-epoch program; the "
+    "epoch is cut after k events (or at quiescence), crash(), recover_from_crash(), get_sync sweep, second recover; "
+    "10 (quick) / 40 (thorough) crash schedules per workload; non-trivial = schedule with >= 2 crashes."
 )
 ASSUMPTIONS = [
     "an operation is durable iff its WAL sequence number (position of its append, taken from the public "
@@ -46,6 +52,11 @@ ASSUMPTIONS = [
     "oracle; an operation not yet returned at the crash has not completed",
     "crash() then recover_from_crash() are called from outside the event loop at an event boundary; suspended "
     "flush / compaction generators are simply never resumed",
+    "epochs family: a write is certain for a read if it completed in the read's own epoch (acknowledged after the last "
+    "recovery) or was durable (seq <= synced_up_to) at the crash that ended its epoch; a read (ordinary or recovery "
+    "sweep) may return any write not superseded by a certain write that began after it completed and completed "
+    "before the read began; writes of earlier epochs that were not durable may or may not have survived; a power "
+    "failure kills the operations in progress (the interrupted Simulation is abandoned and garbage-collected)",
     "FIFO compaction may drop data by design: under FIFO a lost durable write is tolerated once a compaction has "
     "completed, resurrection and never-written values are not",
 ]
@@ -331,8 +342,10 @@ def _fam(policy):
 
 
 FAMILIES = {f"crash_{p}": _fam(p) for p in ("every", "batch", "periodic")}
+FAMILIES["epochs"] = Family("epochs", gen_epochs, run_epochs, shrink=shrink_epochs, case_timeout=120.0)
+FAMILIES["epochs"].shard_size = 8
 
 BUDGET = {
-    "quick": {"crash_every": 24, "crash_batch": 20, "crash_periodic": 16},
-    "thorough": {"crash_every": 600, "crash_batch": 500, "crash_periodic": 400},
+    "quick": {"crash_every": 24, "crash_batch": 20, "crash_periodic": 16, "epochs": 80},
+    "thorough": {"crash_every": 600, "crash_batch": 500, "crash_periodic": 400, "epochs": 2500},
 }
